@@ -69,6 +69,9 @@ def main():
     if "-j" in args:
         j = int(args[args.index("-j") + 1])
     ms = [m for m in catalog.MUTANTS if (not only or m["id"] in only) and (not prop or prop in m["props"])]
+    if prop:
+        # the thorough tier of ONE property runs only that property's check on each of its entries
+        ms = [dict(m, props=[prop]) for m in ms]
     with ThreadPoolExecutor(max_workers=j) as ex:
         results = list(ex.map(run_one, ms))
     bad = 0
